@@ -37,6 +37,14 @@ class PathLimit(AnalysisError):
     pass
 
 
+class _PyRaise(Exception):
+    """an evaluated library call / subscript raised inside a try block that has handlers: control continues in the handler"""
+
+    def __init__(self, name, exc=None):
+        Exception.__init__(self, name)
+        self.name, self.exc = name, exc
+
+
 class _Break(Exception):
     def __init__(self, path):
         self.path = path
@@ -453,6 +461,8 @@ class SymEval:
         self.max_depth = max_depth
         self.trace = []
         self.text_mode = False  # f-strings / %-formatting become Text values
+        self.try_depth = 0
+        self.np_override = {}   # dotted numpy name -> model function (consulted before NP_FUNCS)
         self.globals = {}       # module-level names visible in every inlined function (rule-provided models of imports)
 
     # ------------------------------------------------------------ names
@@ -499,6 +509,8 @@ class SymEval:
         if n.id in self.funcs:
             return Closure(self.funcs[n.id], self)
         g = self.resolve_global(n)
+        if g in self.np_override:
+            return self.np_override[g]
         if g in NP_FUNCS:
             return NP_FUNCS[g]
         if n.id in ('range', 'len', 'int', 'float', 'abs', 'sum', 'min', 'max', 'list', 'tuple', 'isinstance', 'complex', 'round', 'zip', 'enumerate', 'str'):
@@ -562,17 +574,22 @@ class SymEval:
             raise Opaque('operator ' + norm(n))
 
     def e_BoolOp(self, n, p):
-        vals = [self.ev(v, p) for v in n.values]
-        if isinstance(n.op, ast.And):
-            if any(v is False for v in vals):
-                return False
+        vals = []
+        is_and = isinstance(n.op, ast.And)
+        for x in n.values:   # short circuit on decided operands, as Python does
+            v = self.ev(x, p)
+            if isinstance(v, (bool, np.bool_)) or v is None:
+                if is_and and not v:
+                    return False
+                if not is_and and v:
+                    return True
+            vals.append(v)
+        if is_and:
             rest = [v for v in vals if v is not True]
             if not rest:
                 return True
             return rest[0] if len(rest) == 1 else sp.And(*rest)
-        if any(v is True for v in vals):
-            return True
-        rest = [v for v in vals if v is not False]
+        rest = [v for v in vals if v is not False and v is not None]
         if not rest:
             return False
         return rest[0] if len(rest) == 1 else sp.Or(*rest)
@@ -685,6 +702,8 @@ class SymEval:
         d = self.dotted(n)
         g = None if (d and (d[0] in p.env or d[0] in self.globals)) else self.resolve_global(n)
         if g is not None:
+            if g in self.np_override:
+                return self.np_override[g]
             if g in NP_CONSTS:
                 return NP_CONSTS[g]
             if g in NP_FUNCS:
@@ -793,7 +812,13 @@ class SymEval:
             if is_arr(base):
                 r = base[idx]
                 return r
-        except (KeyError, IndexError, TypeError) as e:
+        except WouldRaise:
+            if self.try_depth > 0:
+                raise _PyRaise('KeyError')
+            raise
+        except (KeyError, IndexError, TypeError, ValueError) as e:
+            if self.try_depth > 0:
+                raise _PyRaise(type(e).__name__, e)
             raise Opaque('subscript %s: %s' % (norm(n), e))
         if isinstance(base, sp.Basic) and idx is Ellipsis:
             return base
@@ -873,13 +898,13 @@ class SymEval:
             return f(*args, **kw)
         if callable(f):
             try:
-                kw2 = {k: v for k, v in kw.items() if k not in ('dtype',)}
+                kw2 = kw if getattr(f, '_wants_dtype', False) else {k: v for k, v in kw.items() if k not in ('dtype',)}
                 return f(*args, **kw2)
-            except Opaque:
-                raise
-            except AnalysisError:
+            except (Opaque, AnalysisError, _PyRaise, _Break, _Continue):
                 raise
             except Exception as e:
+                if self.try_depth > 0:
+                    raise _PyRaise(type(e).__name__, e)
                 raise Opaque('cannot evaluate %s: %s: %s' % (norm(n), type(e).__name__, e))
         raise Opaque('call of %s' % norm(n.func))
 
@@ -931,7 +956,12 @@ class SymEval:
         """all syntactic paths through fn: list of Path (done in {'return','raise',None})"""
         e = self.bind(fn, list(args), dict(kw or {})) if env is None else dict(env)
         start = Path(e, conds)
-        paths = self.block(fn.body, [start])
+        try:
+            paths = self.block(fn.body, [start])
+        except _PyRaise as ex:
+            if self.try_depth > 0:
+                raise
+            raise WouldRaise('uncaught %s in %s: %s' % (ex.name, fn.name, ex.exc))
         for q in paths:
             if q.done is None:
                 q.done = 'return'
@@ -1144,11 +1174,46 @@ class SymEval:
     def s_Continue(self, s, p):
         raise _Continue(p)
 
+    def _handler_for(self, s, name):
+        for cand in s.handlers:
+            tys = [] if cand.type is None else ([norm(t) for t in cand.type.elts] if isinstance(cand.type, ast.Tuple) else [norm(cand.type)])
+            if cand.type is None or name in tys or 'Exception' in tys or 'BaseException' in tys:
+                return cand
+        return None
+
     def s_Try(self, s, p):
-        """try body; a path that ends in a syntactic raise/assert failure inside the body continues in the first handler whose type
-        matches (bare, Exception, BaseException or the raised name); exceptions of evaluated library calls are not modelled"""
-        paths = self.block(s.body, [p])
+        """try body; a path that ends in a syntactic raise / failed assert inside the body, or in an evaluated library call or
+        subscript that raises, continues in the first handler whose type matches (bare, Exception, BaseException, the raised name)"""
+        paths = [p]
         out = []
+        if s.handlers:
+            self.try_depth += 1
+        try:
+            for st in s.body:
+                live = [q for q in paths if q.done is None]
+                if not live:
+                    break
+                try:
+                    paths = self.block([st], paths)
+                except _PyRaise as e:
+                    h = self._handler_for(s, e.name)
+                    if h is None:
+                        raise
+                    if len(live) != 1:
+                        raise Opaque('exception inside try with %d live paths' % len(live))
+                    q = live[0]
+                    paths = [x for x in paths if x is not q and x.done is not None]
+                    self.try_depth -= 1
+                    try:
+                        if h.name:
+                            q.env[h.name] = None
+                        out.extend(self.block(h.body, [q]))
+                    finally:
+                        self.try_depth += 1
+                    break
+        finally:
+            if s.handlers:
+                self.try_depth -= 1
         normal = []
         for q in paths:
             if q.done == 'raise' and s.handlers and q.raised is not None and any(q.raised is x for b in s.body for x in ast.walk(b)):
@@ -1157,12 +1222,7 @@ class SymEval:
                 else:
                     exc = q.raised.exc
                     name = norm(exc.func if isinstance(exc, ast.Call) else exc) if exc is not None else None
-                h = None
-                for cand in s.handlers:
-                    tys = [] if cand.type is None else ([norm(t) for t in cand.type.elts] if isinstance(cand.type, ast.Tuple) else [norm(cand.type)])
-                    if cand.type is None or name in tys or 'Exception' in tys or 'BaseException' in tys:
-                        h = cand
-                        break
+                h = self._handler_for(s, name)
                 if h is not None:
                     q.done, q.raised = None, None
                     if h.name:
